@@ -2178,6 +2178,8 @@ def canonicalise(tree: ast.Module, rel: str = "") -> ast.Module:
         canon.rename_fresh_members(tree, ref)
         canon.unroll_fresh_generators(tree, ref)
         tree = _Canonical().visit(tree)
+        canon.inline_fresh_helpers(tree, ref, protect_renames=True)
+        canon.rename_fresh_members(tree, ref)
         canon.inline_fresh_helpers(tree, ref)
         canon.rename_fresh_members(tree, ref)
         canon.restore_inlined_helpers(tree, ref)
